@@ -791,7 +791,7 @@ META = {
 }
 MANIFEST = {
     "category": "other",
-    "text": "Dimension-typing contracts on the Eigen-backed kernels of AMatrixDense (18 methods) and on the Eigen-storage product kernels of MatrixSparse (9 methods): loop-free, hence for every matrix shape and both transposition flags (proved); bounded (3x3) term-coverage unit on the generic congruence product normMatrix; VH::whereMinimum / whereMaximum return the rank of the extremum of the defined elements VH::whereElement the first rank of the target, VH::maximum / VH::minimum (conditional forms) the extremum of the retained elements, their vector-of-vectors forms the extremum of the per-vector results (loop invariants, proved); other values are not claimed.",
+    "text": "Dimension-typing contracts on the Eigen-backed kernels of AMatrixDense (18 methods) and on the Eigen-storage product kernels of MatrixSparse (9 methods): loop-free, hence for every matrix shape and both transposition flags (proved); bounded (3x3) term-coverage unit on the generic congruence product normMatrix; sixteen VectorHelper units, each loop closed by an invariant (proved, lengths <= 6): whereMinimum / whereMaximum / whereElement (rank of the extremum of the defined elements, first rank of a target), maximum / minimum in their conditional, vector-of-vectors and VectorInt forms, isSorted, isConstant, countUndefined / countDefined, hasUndefined, cumul; other values are not claimed.",
     "note": "Trusted: Eigen preconditions as documented; numerical results N/A.",
     "design_ref": "DESIGN.md 3 C11",
 }
